@@ -33,6 +33,7 @@ def stmts(depth, in_loop, kind):
             yield (["with S(@M@) as v@M@, S(@M2@) as v@M2@:"] + ind, bc, bm + 2)
             yield (["with S(@M@):"] + ind, bc, bm + 1)
         yield (["try:"] + ind + ["except KeyError:", "    " + h], bc, bm)
+        yield (["try:"] + ind + ["except KeyError:", "    raise"], bc, bm)        # every handler leaves the block
         yield (["try:"] + ind + ["finally:", "    " + h.replace("'h'", "'f'")], bc, bm)
         yield (["if C[@C@]:"] + ind, bc + 1, bm)
         yield (["if C[@C@]:"] + ind + ["else:", "    " + h.replace("'h'", "'e'")], bc + 1, bm)
